@@ -317,6 +317,29 @@ def scalar(ex, p, v):
 def m_cmp(ex, p, call, k):
     """PartialEq/PartialOrd on scalars (and references to scalars)"""
     meth = call.short.rsplit('::', 1)[-1]
+    if isinstance(call.callee, str):
+        f_ = ex.resolve(call.callee)
+        if f_ is not None and f_.blocks and not ex.is_derived(f_):
+            return NotImplemented        # a hand-written PartialEq/PartialOrd impl of the crate: execute it
+        if f_ is None and meth in ('lt', 'le', 'gt', 'ge'):
+            # provided methods of PartialOrd: defined by the type's own partial_cmp when that is hand-written
+            pc_name = re.sub(r'::' + meth + r'$', '::partial_cmp', call.callee)
+            g_ = ex.resolve(pc_name)
+            if g_ is not None and g_.blocks and not ex.is_derived(g_):
+                def after(q, o):
+                    # o: Option<Ordering>; Ordering = Less(-1) | Equal(0) | Greater(1)
+                    ordv = o.fields[0] if isinstance(o, Agg) and o.variant == 'Some' else None
+                    if ordv is None:
+                        return ex.opaque_call(q, call, k)
+                    if isinstance(ordv, Agg) and ordv.variant in ('Less', 'Equal', 'Greater'):
+                        d = {'Less': -1, 'Equal': 0, 'Greater': 1}[ordv.variant]
+                        return k(q, z3.BoolVal({'lt': d < 0, 'le': d <= 0, 'gt': d > 0, 'ge': d >= 0}[meth]))
+                    dv = ex.discriminant(ordv, 'i8') if isinstance(ordv, Sym) else ordv
+                    if isinstance(dv, z3.ExprRef) and z3.is_bv(dv):
+                        z = z3.BitVecVal(0, dv.size())
+                        return k(q, {'lt': dv < z, 'le': dv <= z, 'gt': dv > z, 'ge': dv >= z}[meth])
+                    return ex.opaque_call(q, call, k)
+                return ex.run_fn(g_, call.args, p, call.depth + 1, after)
     a, b = scalar(ex, p, call.args[0]), scalar(ex, p, call.args[1])
     if isinstance(a, Str) and isinstance(b, Str) and meth in ('eq', 'ne'):
         return k(p, z3.BoolVal((a.s == b.s) == (meth == 'eq')))
@@ -437,6 +460,16 @@ def m_mem_replace(ex, p, call, k):
     old = ex.deref(p, ptr)
     ex.store(p, ptr, new)
     k(p, old)
+
+
+def m_mem_swap(ex, p, call, k):
+    a, b = call.args[0], call.args[1]
+    if not (isinstance(a, Ptr) and isinstance(b, Ptr)):
+        return NotImplemented
+    va, vb = ex.deref(p, a), ex.deref(p, b)
+    ex.store(p, a, vb)
+    ex.store(p, b, va)
+    k(p, UNIT)
 
 
 def m_mem_take(ex, p, call, k):
@@ -621,7 +654,15 @@ def m_occ_get(ex, p, call, k):
     e = _entry(ex, p, call.args[0])
     cell = ('H', f'entry-val{p.seq("entryval")}', '')
     p.mem[cell] = e.fields[2]
-    k(p, Ptr(cell, (), 'mut' in call.short.rsplit('::', 1)[-1]))
+    mut = 'mut' in call.short.rsplit('::', 1)[-1]
+    if mut:
+        # writes through the returned `&mut V` replace the stored value: remembered so that effect lists can show them
+        try:
+            mname = _map_of(ex, p, e.fields[0]).name
+        except Exception:
+            mname = '?'
+        p.events.append(Event('entry-cell', mname, (e.fields[1], Ptr(cell, (), True), e.fields[2]), None, call.span, call.depth))
+    k(p, Ptr(cell, (), mut))
 
 
 def m_occ_insert(ex, p, call, k):
@@ -815,6 +856,7 @@ GLOBAL_MODELS = [
     (R(r'AsyncReadExt>::read_exact$'), m_read_exact),
     (R(r' as Deref(Mut)?>::deref(_mut)?$'), m_deref),
     (R(r'mem::replace$'), m_mem_replace),
+    (R(r'mem::swap$'), m_mem_swap),
     (R(r'mem::take$'), m_mem_take),
     (R(r'mem::drop$|^drop$'), m_drop_fn),
     (R(r'(HashMap|BTreeMap|HashSet|BTreeSet)::(new|with_capacity)$'), m_map_new),
@@ -853,6 +895,9 @@ def as_array(ex, p, v):
         return bytes_to_agg(v)
     if isinstance(v, Agg) and v.kind == 'array':
         return v
+    if isinstance(v, z3.ExprRef) and z3.is_bv(v) and v.size() > 64 and v.size() % 8 == 0:
+        n_ = v.size() // 8        # `[u8; N]` newtype modelled as one big-endian bit-vector
+        return Agg('[]', None, [z3.Extract(v.size() - 1 - 8 * i, v.size() - 8 - 8 * i, v) for i in range(n_)], 'array')
     if isinstance(v, Sym) and isinstance(v.get_ov('items'), Agg):
         return v.get_ov('items')          # a Vec built element by element on this path (finite-vector model)
     return None
@@ -1031,6 +1076,34 @@ def m_from_bytes(ex, p, call, k):
     k(p, z3.Concat(*f))
 
 
+def m_slice_try_into_array(ex, p, call, k):
+    """<&[u8] as TryInto<[u8; N]>>::try_into / <[u8; N] as TryFrom<&[u8]>>::try_from: Ok(copy) iff the lengths agree"""
+    arr = as_array(ex, p, call.args[0]) if isinstance(call.args[0], Ptr) else None
+    m = re.search(r'\[u8; (\d+)\]', call.retty or '')
+    if arr is None or not m:
+        return NotImplemented
+    if len(arr.fields) == int(m.group(1)):
+        return k(p, ok(arr))
+    k(p, err(Sym('TryFromSliceError', 'TryFromSliceError')))
+
+
+def m_tuple_cmp(ex, p, call, k):
+    """<(A, B, ..) as Ord>::cmp / PartialOrd::partial_cmp on tuples of unsigned machine integers: lexicographic"""
+    a, b = scalar(ex, p, call.args[0]), scalar(ex, p, call.args[1])
+    if not (isinstance(a, Agg) and isinstance(b, Agg) and a.kind == 'tuple' and len(a.fields) == len(b.fields) and a.fields
+            and all(isinstance(x, z3.ExprRef) and z3.is_bv(x) for x in list(a.fields) + list(b.fields))):
+        return NotImplemented
+    lt, eq = z3.BoolVal(False), z3.BoolVal(True)
+    for x, y in zip(a.fields, b.fields):
+        if x.size() != y.size():
+            return NotImplemented
+        lt = z3.Or(lt, z3.And(eq, z3.ULT(x, y)))
+        eq = z3.And(eq, x == y)
+    d = z3.If(lt, z3.BitVecVal(-1, 8), z3.If(eq, z3.BitVecVal(0, 8), z3.BitVecVal(1, 8)))
+    o = Sym(f'ordering{p.seq("ordering")}', 'std::cmp::Ordering').with_ov('discr', d)
+    k(p, some(o) if call.short.endswith('partial_cmp') else o)
+
+
 def m_to_bytes(ex, p, call, k):
     meth = call.short.rsplit('::', 1)[-1]
     v = call.args[0]
@@ -1049,6 +1122,8 @@ BYTE_MODELS = [
     (R(r'slice::copy_from_slice$'), m_copy_from_slice),
     (R(r' as PartialEq>::(eq|ne)$'), m_array_eq),
     (R(r'num::from_(be|le)_bytes$'), m_from_bytes),
+    (R(r'^<&\[u8\] as TryInto>::try_into$|^<\[u8; \d+\] as TryFrom>::try_from$'), m_slice_try_into_array),
+    (R(r'^<\(.*\) as (Ord|PartialOrd)>::(cmp|partial_cmp)$'), m_tuple_cmp),
     (R(r'num::to_(be|le)_bytes$'), m_to_bytes),
 ]
 GLOBAL_MODELS = BYTE_MODELS + GLOBAL_MODELS
